@@ -457,9 +457,21 @@ Definition all_values_b (e : req) (o : oper) (vs : list string) : bool :=
     | Exists => true
     | DoesNotExist => false
     | Gt => match num_arg vs, gte e with Some m, Some g => m <? g | _, _ => false end
-    | Gte => match num_arg vs, gte e with Some m, Some g => m <=? g | _, _ => false end
+    | Gte => match num_arg vs with
+             | Some m => match gte e, lte e with
+                         | Some g, _ => m <=? g
+                         | None, Some _ => m =? min64        (* only numerals are admitted, all of them are >= MinInt64 *)
+                         | None, None => false
+                         end
+             | None => false end
     | Lt => match num_arg vs, lte e with Some m, Some l => l <? m | _, _ => false end
-    | Lte => match num_arg vs, lte e with Some m, Some l => l <=? m | _, _ => false end
+    | Lte => match num_arg vs with
+             | Some m => match lte e, gte e with
+                         | Some l, _ => l <=? m
+                         | None, Some _ => m =? max64
+                         | None, None => false
+                         end
+             | None => false end
     end
   else forallb (fun v => negb (has e v) || k8s_match o vs (Some v)) (vals e).
 
